@@ -19,20 +19,22 @@ def val(x):
 
 def rand_target(rng):
     r = rng.random()
+    if r < 0.03:
+        return {'k': rng.choice(['any', 'grumpy'])}          # hostile ==: equal to everything / raising on foreign operands
     if r < 0.45:
         return G.rand_scalar(rng)
     if r < 0.5:
         return G.rand_set(rng)
     if r < 0.8:
         items, seen = [], set()
-        for k in rng.sample(['a', 'b', 'ab', 0, 1], rng.randint(0, 3)):
+        for k in rng.sample(['a', 'b', 'ab', 0, 1, '', None], rng.randint(0, 3)):
             if k in seen:
                 continue
             seen.add(k)
-            v = G.rand_scalar(rng) if rng.random() < 0.75 else G.rand_tree(rng, 1)
+            v = G.rand_item(rng) if rng.random() < 0.75 else G.rand_tree(rng, 1)
             items.append({'key': val(k), 'val': v})
-        return {'k': 'c', 'cls': rng.choice(['dict', 'dict', 'odict']), 'items': items}
-    return {'k': 'c', 'cls': rng.choice(['list', 'tuple']), 'items': [G.rand_scalar(rng) for _ in range(rng.randint(0, 3))]}
+        return {'k': 'c', 'cls': rng.choice(['dict', 'dict', 'odict', 'fdict']), 'items': items}
+    return {'k': 'c', 'cls': rng.choice(['list', 'tuple', 'flist', 'ntuple']), 'items': [G.rand_item(rng) for _ in range(rng.randint(0, 3))]}
 
 
 def gen_default(rng):
